@@ -323,8 +323,12 @@ def replay_xz(ctx, D, lz, groups, cat, start=0, base=0, mt_every=3):
     return n
 
 # ---------------------------------------------------------------------------------------------- (V) tests/files
-def validate_test_files(ctx, D, lz, files, start=0):
+def validate_test_files(ctx, D, lz, files, start=0, model=None):
+    """tests/files/*.xz: the real decoders vs (a) the independent glue judge - verdict AND decoded bytes, (b) the TLA+ decoder
+    model's verdict on the file lifted to an abstract file (model[name] = dict(rets, out dids, pos, size) or absent)."""
     from harness.glue import xz as gxz
+    from harness.pydrv import c03lift as LF
+    model = model or {}
     n = 0
     for idx in range(start, len(files)):
         path = files[idx]
@@ -337,6 +341,21 @@ def validate_test_files(ctx, D, lz, files, start=0):
         n += 1
         ctx.case(key=("testfile", name))
         ctx.add_traces(1)
+        m = model.get(name)
+        if m is not None:
+            # (b) the model judged the lifted file
+            if ret not in m['rets']:
+                ctx.violation("testfile:model:ret:%s" % name, "%s: liblzma %s, the decoder model on the lifted file %s" % (name, ret, m['rets']), dict(kind="testfile", file=name))
+            elif ret == "STREAM_END":
+                try:
+                    af, limit, outs, _ = LF.lift(data)
+                    exp = b"".join(outs[d] for d in m['out'])
+                except Exception as e:
+                    raise MachineryError("lifting %s failed in the worker: %r" % (name, e))
+                if out != exp or tin != m['pos'] or len(data) != m['size']:
+                    ctx.violation("testfile:model:bytes:%s" % name, "%s: decoded bytes / consumed input differ from the model's prediction (%d/%d bytes, consumed %d/%d)" % (
+                        name, len(out), len(exp), tin, m['pos']), dict(kind="testfile", file=name))
+            n += 1
         if want is None:
             ctx.notes.append("tests/files/%s: glue cannot judge (%s)" % (name, g.verdict))
             continue
@@ -349,15 +368,14 @@ def validate_test_files(ctx, D, lz, files, start=0):
         elif ret != "STREAM_END" and not g.output.startswith(out) and not out.startswith(g.output):
             ctx.violation("testfile:partial:%s" % name, "%s: partial output before the error is not a prefix of the judge's" % name, dict(kind="testfile", file=name))
         # other entry points must agree with the stream decoder on real-world files
-        if True:
-            bret, bout, _ = D.buffer_decode(data, lz.CONCATENATED, out_cap=1 << 22)
-            if bret != {"STREAM_END": "OK", "BUF_ERROR": "DATA_ERROR"}.get(ret, ret) or (bret == "OK" and bout != out):
-                ctx.violation("testfile:buffer_decode:%s" % name, "%s: lzma_stream_buffer_decode %s vs lzma_stream_decoder %s" % (name, bret, ret), dict(kind="testfile", file=name))
+        bret, bout, _ = D.buffer_decode(data, lz.CONCATENATED, out_cap=1 << 22)
+        if bret != {"STREAM_END": "OK", "BUF_ERROR": "DATA_ERROR"}.get(ret, ret) or (bret == "OK" and bout != out):
+            ctx.violation("testfile:buffer_decode:%s" % name, "%s: lzma_stream_buffer_decode %s vs lzma_stream_decoder %s" % (name, bret, ret), dict(kind="testfile", file=name))
         mret, mout, _, _ = D.decode_stream(data, lz.CONCATENATED, mt=2, out_cap=1 << 22)
         if mret != ret or (ret == "STREAM_END" and mout != out):
             ctx.violation("testfile:mt:%s" % name, "%s: lzma_stream_decoder_mt %s vs lzma_stream_decoder %s" % (name, mret, ret), dict(kind="testfile", file=name))
+        n += 2
     return n
-
 
 # ---------------------------------------------------------------------------------------------- worker entry
 def main():
@@ -378,7 +396,7 @@ def main():
             cat = D.build_catalogue(job["catseed"])
             n = replay_xz(ctx, D, lz, a["groups"], cat, start=start, base=a.get("base", 0))
         elif ph == "testfiles":
-            n = validate_test_files(ctx, D, lz, a["files"], start=start)
+            n = validate_test_files(ctx, D, lz, a["files"], start=start, model=a.get("model"))
         else:
             raise SystemExit(77)
         ctx._w(dict(e="done", n=n))
